@@ -4,8 +4,10 @@
 EXTENDS Naturals, FiniteSets, TLC, Json
 CONSTANTS MaxFeatures, Emit
 Features == [ gen_v2 |-> {"clean", "managed", "plugin-opts", "remote-plugin", "plugin-types", "in-dir", "in-module", "in-git-branch",
-                          "in-git-branch-ref", "in-git-tag", "in-tar", "in-zip", "in-protofile", "in-image"},
-              gen_v1 |-> {"managed", "plugin-opts", "remote-plugin"},
+                          "in-git-branch-ref", "in-git-tag", "in-tar", "in-zip", "in-protofile", "in-image",
+                          \* a strategy on a plugin that is not given as a local path
+                          "builtin-strategy"},
+              gen_v1 |-> {"managed", "plugin-opts", "remote-plugin", "name-strategy", "protoc-path-strategy"},
               work   |-> {"three"} ]
 VARIABLES kind, features
 vars == <<kind, features>>
